@@ -247,6 +247,15 @@ fn main() {
                         let expv: Vec<(char, u64)> = exp.iter().map(|(c, m)| (*c, base + *m as u64)).collect();
                         let found = shown_cells.is_empty() || expv.windows(shown_cells.len()).any(|w| w == &shown_cells[..]);
                         if !found { bad = Some(format!("row {}: the characters shown {:?} are not a contiguous run of the text {:?}", row, shown_cells, text)); break; }
+                        // each cut side is marked: glyphs missing before / after the shown run mean at least one dot there
+                        if found && !shown_cells.is_empty() {
+                            let offs: Vec<usize> = (0..=expv.len() - shown_cells.len()).filter(|o| expv[*o..*o + shown_cells.len()] == shown_cells[..]).collect();
+                            let lead = body.iter().take_while(|c| c.1 == '.').count();
+                            let trail = body.iter().rev().take_while(|c| c.1 == '.').count();
+                            // (a run that occurs at several places is judged by the most lenient one)
+                            let ok = offs.iter().any(|o| (*o == 0 || lead >= 1) && (*o + shown_cells.len() == expv.len() || trail >= 1));
+                            if !ok { bad = Some(format!("row {}: the text {:?} is cut but the cut side carries no dots: {:?}", row, text, body)); break; }
+                        }
                         let first_nd = body.iter().position(|c| c.1 != '.');
                         let last_nd = body.iter().rposition(|c| c.1 != '.');
                         if let (Some(f), Some(l)) = (first_nd, last_nd) {
